@@ -3,7 +3,7 @@ import json
 import common
 
 PROPS = "RotoV.Props.C13"
-EXTRA = ["RotoV.Lemmas.Scope", "RotoV.Lemmas.ScopePath", "RotoV.Lemmas.ScopeFrame", "RotoV.Lemmas.ScopeBuild", "RotoV.Lemmas.ScopeDiscovery", "RotoV.Lemmas.ScopeExport", "RotoV.Lemmas.ScopeWitness", "RotoV.Lemmas.ScopeImports", "RotoV.Lemmas.ScopeTermination", "RotoV.Lemmas.ScopeGetFunction", "RotoV.Lemmas.ScopeNoPanic", "RotoV.Lemmas.ScopeAlias", "RotoV.Lemmas.ScopeImportsLoop", "RotoV.Lemmas.ScopeImportsComplete", "RotoV.Lemmas.ScopeResolveLoop", "RotoV.Lemmas.ScopePathLoop", "RotoV.Model.ScopePathLoop", "RotoV.Model.ScopeImportsLoop", "RotoV.Model.ScopeResolveLoop", "RotoV.Model.Scope"]
+EXTRA = ["RotoV.Lemmas.Scope", "RotoV.Lemmas.ScopePath", "RotoV.Lemmas.ScopeFrame", "RotoV.Lemmas.ScopeBuild", "RotoV.Lemmas.ScopeDiscovery", "RotoV.Lemmas.ScopeExport", "RotoV.Lemmas.ScopeWitness", "RotoV.Lemmas.ScopeImports", "RotoV.Lemmas.ScopeTermination", "RotoV.Lemmas.ScopeGetFunction", "RotoV.Lemmas.ScopeNoPanic", "RotoV.Lemmas.ScopeAlias", "RotoV.Lemmas.ScopeImportsLoop", "RotoV.Lemmas.ScopeImportsComplete", "RotoV.Lemmas.ScopeResolveLoop", "RotoV.Lemmas.ScopePathLoop", "RotoV.Model.ScopePathLoop", "RotoV.Lemmas.ScopeImportOne", "RotoV.Model.ScopeImportOne", "RotoV.Model.ScopeImportsLoop", "RotoV.Model.ScopeResolveLoop", "RotoV.Model.Scope"]
 
 
 def search(ctx):
@@ -14,7 +14,7 @@ def search(ctx):
 
 
 def run(ctx):
-    ctx.extract(["scopefacts", "scopeimports", "scoperesolve", "scopepath"])
+    ctx.extract(["scopefacts", "scopeimports", "scoperesolve", "scopepath", "scopeimportone"])
     ctx.prove(PROPS, extra_modules=EXTRA)
     if ctx.build_harness("c13"):
         ctx.harness("c13", ["run", ctx.seed, ctx.tier], timeout=3000)
@@ -40,6 +40,9 @@ def run(ctx):
         "`while` over leading supers, statements between the loops, body of the final `loop`) into the little language "
         "of Model/ScopePathLoop.lean; `parent_module` means the hand model's Graph.parentModule (tied by correspondence), "
         "the error constructors are recognised by method name / message; any other form is an extraction failure",
+        "translator target scopeimportone: the three statements of TypeChecker::import are recognised by their text up to "
+        "the names of the two bound locals (resolve from `scope`, leftover test, insert into `scope` under "
+        "`declaration.name`); insert_import's table / key / occupied-is-error are textual facts",
         "translator target scopefacts (extract/src/targets/c13.rs): locates the consulted tables / literals by what "
         "is consulted (method names, receivers, compared variables), not by code shape",
     ]
